@@ -93,7 +93,7 @@ type Conn struct {
 	Log        []*Entry
 	Unmodelled []string // statement shapes that could not be decided: the run is inconclusive
 	OnApplied  func(e *Entry, c *Catalogue)
-	armed      bool // verwrite armed
+	armed      bool   // verwrite armed
 	refused    string // bound text of the statement a `refused` fault hit: every repetition fails too
 	dead       bool
 	Fired      bool // the fault was actually injected
